@@ -15,14 +15,19 @@ func Read[T allowedGenericTypes](reader io.Reader) (result T, err error) {
 }
 
 func ReadBytes(reader io.Reader, length int) ([]byte, error) {
-	readBytes := make([]byte, length)
+	if length < 0 {
+		return nil, ierrors.Errorf("failed to read serialized bytes: invalid length %d", length)
+	}
 
-	nBytes, err := reader.Read(readBytes)
+	// The length usually comes from untrusted input and an io.Reader may hand out the data in several pieces:
+	// read through a limited reader until the requested amount has arrived, so that memory is only allocated for
+	// data that is actually there.
+	readBytes, err := io.ReadAll(io.LimitReader(reader, int64(length)))
 	if err != nil {
 		return nil, ierrors.Wrap(err, "failed to read serialized bytes")
 	}
-	if nBytes != length {
-		return nil, ierrors.Errorf("failed to read serialized bytes: read bytes (%d) != size (%d)", nBytes, length)
+	if len(readBytes) != length {
+		return nil, ierrors.Errorf("failed to read serialized bytes: read bytes (%d) != size (%d)", len(readBytes), length)
 	}
 
 	return readBytes, nil
